@@ -128,7 +128,7 @@ def step (cfg : Cfg) (st : St) : List String → St × String
     | none => (st, "bad-op")
   | ["blake", "reset", slot] =>
     withSlot st slot fun s h => ({ st with hs := setSlot st.hs s (resetH cfg h) }, "ok")
-  | ["blake", "finreset", slot] =>
+  | ["blake", "finreset", slot] | ["blake", "finreset2", slot] =>
     withSlot st slot fun s h =>
       match finResetH cfg h with
       | .ok (h', out) => ({ st with hs := setSlot st.hs s h' }, hexOfBytes out)
